@@ -11,6 +11,7 @@ import (
 	"strings"
 	"sync"
 	"sync/atomic"
+	"syscall"
 	"time"
 
 	"github.com/FollowTheProcess/spok/hash"
@@ -44,6 +45,10 @@ type ListCase struct {
 	// Shared: after the single call, four goroutines hash the very same slice at once (callers may
 	// share a list; Hash only reads it): all must agree with the single call, and the list is unchanged
 	Shared bool `json:"shared,omitempty"`
+	// NoFds: while Hash runs the process has no file descriptor to spare (its RLIMIT_NOFILE is 0 for the
+	// duration): every open fails with EMFILE, a condition that does not go away by waiting. Hash
+	// returns an error (or, for a list without entries to open, a digest); it does not hang.
+	NoFds bool `json:"no_fds,omitempty"`
 }
 
 func (c ListCase) size() int { return len(c.Kinds) + len(c.Dups) }
@@ -222,7 +227,27 @@ func execList(s *ev.Shard, root string, c ListCase) *rp.Fail {
 	}
 	runtime.Gosched()
 	baseline := runtime.NumGoroutine()
+	var oldLimit syscall.Rlimit
+	if c.NoFds {
+		if err := syscall.Getrlimit(syscall.RLIMIT_NOFILE, &oldLimit); err != nil {
+			return &rp.Fail{Sig: "harness", Msg: err.Error()}
+		}
+		none := oldLimit
+		none.Cur = 0
+		if err := syscall.Setrlimit(syscall.RLIMIT_NOFILE, &none); err != nil {
+			return &rp.Fail{Sig: "harness", Msg: err.Error()}
+		}
+	}
 	digest, herr := hash.New().Hash(paths)
+	if c.NoFds {
+		_ = syscall.Setrlimit(syscall.RLIMIT_NOFILE, &oldLimit)
+		if len(paths) > 0 {
+			nFaulty++ // nothing could be opened
+		}
+		if s != nil {
+			s.Class("no_file_descriptor_to_spare")
+		}
+	}
 	stop.Store(true)
 	wg.Wait()
 	if len(vanishing) > 0 {
